@@ -389,10 +389,12 @@ def _validate_bmc(todo):
         for ob in obligs:
             by_key.setdefault(_base_key(ob.name), []).append(ob)
         kept, dropped = [], []
+        # a post-condition is proved FROM the loop invariants and cut facts: that proof only stands if those are themselves established
+        invariants_hold = all(o["status"] == "discharged" for o in out["obligations"] if o["kind"] in ("inv-init", "inv-preserved", "cut", "pre@callsite"))
         for c in bmc["counterexamples"]:
             k = _base_key(c["name"])
             sts = status.get(k, [])
-            if sts and all(s_ == "discharged" for s_ in sts):
+            if sts and all(s_ == "discharged" for s_ in sts) and invariants_hold:
                 dropped.append({"name": c["name"], "why": "the unbounded pass proved this obligation"})
                 continue
             confirmed = False
